@@ -41,6 +41,7 @@ type c26Spec struct {
 	L          uint64         `json:"epoch_length"`
 	Blocks     []c26BlockSpec `json:"blocks"`
 	Unimported []int          `json:"unimported_children_of"` // spec indexes (or -1) that get a never-imported child header
+	Finalise   []int          `json:"finalise,omitempty"`     // group tree_finalised: spec indexes finalised in this order
 }
 
 type c26World struct {
@@ -422,13 +423,16 @@ func runC26(c *vcommon.Case, spec *c26Spec, mode int) {
 }
 
 // runC26Finalised: lookups after finalisation. The tree is BABE-conformant (the first block of every epoch, and
-// only it, announces the next epoch's data). One or two blocks are finalised the way the node does it
-// (SetFinalisedHash, then FinalizeBABENextEpochData / FinalizeBABENextConfigData as dot/digest does on the
-// finalisation notification), then every surviving block is queried. Asserted: termination, and that a lookup
-// that SUCCEEDS returns what the block's own ancestry announced (the database copy written at finalisation must
-// come from the finalised fork). A lookup that fails although the ancestry announced the data is only counted:
-// FinalizeBABENextEpochData forgets every epoch <= epoch(finalised)+1 while persisting only the last one, which
-// is outside what the property states (see NOTES.md).
+// only it, announces the next epoch's data). Blocks are finalised the way the node does it (SetFinalisedHash,
+// then FinalizeBABENextEpochData / FinalizeBABENextConfigData as dot/digest does on the finalisation
+// notification), then every surviving block is queried. Announcements of the abandoned forks stay in the
+// in-memory maps (config data always, epoch data for the epochs after the finalised one), so findAncestor meets
+// announcers whose headers no longer exist; Go's map iteration decides which one it meets first, therefore every
+// lookup that consults a map holding abandoned announcers is repeated vC26Repeats times.
+// Asserted: termination; the lookup returns what the block's own ancestry announced (config: latest earlier
+// announcement, else genesis) - an error is a violation whenever the ancestry announced (and always for config).
+const vC26Repeats = 32
+
 func runC26Finalised(c *vcommon.Case, spec *c26Spec, picks []int) {
 	w, closeFn, err := buildC26World(spec)
 	if err != nil {
@@ -446,18 +450,50 @@ func runC26Finalised(c *vcommon.Case, spec *c26Spec, picks []int) {
 		}
 		return m
 	}
-	for round, pick := range picks {
-		// choose a proper descendant of the current head
-		var cands []int
-		for x := range w.tree.blocks {
-			if x != head && w.tree.isAncestorOrEq(head, x) {
-				cands = append(cands, x)
+	// abandoned announcers still held by the in-memory maps for an epoch
+	prunedIn := func(epochData bool, epoch uint64) int {
+		n := 0
+		count := func(h common.Hash) {
+			if x, ok := w.tree.byHash[h]; ok && w.status(x, head) == "abandoned" {
+				n++
 			}
 		}
-		if len(cands) == 0 {
-			break
+		if epochData {
+			w.es.nextEpochDataLock.RLock()
+			for h := range w.es.nextEpochData[epoch] {
+				count(h)
+			}
+			w.es.nextEpochDataLock.RUnlock()
+		} else {
+			w.es.nextConfigDataLock.RLock()
+			for h := range w.es.nextConfigData[epoch] {
+				count(h)
+			}
+			w.es.nextConfigDataLock.RUnlock()
 		}
-		f := cands[pick%len(cands)]
+		return n
+	}
+	rounds := len(picks)
+	if len(spec.Finalise) > 0 {
+		rounds = len(spec.Finalise)
+	}
+	for round := 0; round < rounds; round++ {
+		f := -1
+		if len(spec.Finalise) > 0 {
+			f = spec.Finalise[round] + 1
+		} else {
+			// choose a proper descendant of the current head
+			var cands []int
+			for x := range w.tree.blocks {
+				if x != head && w.tree.isAncestorOrEq(head, x) {
+					cands = append(cands, x)
+				}
+			}
+			if len(cands) == 0 {
+				break
+			}
+			f = cands[picks[round]%len(cands)]
+		}
 		fb := w.tree.blocks[f]
 		if err := w.bs.SetFinalisedHash(fb.hash, uint64(round+1), 0); err != nil {
 			c.Inconclusive(fmt.Sprintf("SetFinalisedHash(b%d) failed: %v", f, err))
@@ -488,22 +524,42 @@ func runC26Finalised(c *vcommon.Case, spec *c26Spec, picks []int) {
 				return
 			}
 			for e := uint64(1); e <= w.epochOf(x)+2 && e <= 8; e++ {
+				// ---------------- epoch data ----------------
 				S := w.announcers(x, e, true)
-				verifFindAncestorSteps.Store(0)
-				verifFindAncestorBudget.Store(vC26StepBudget)
-				var gd *types.EpochDataRaw
-				var gerr error
-				hd := *b.header
-				exceeded, steps := vRecoverBudget(func() { gd, gerr = w.es.GetEpochDataRaw(e, &hd) })
-				verifFindAncestorBudget.Store(0)
-				c.Eval(1)
-				c.Count("after_finalisation_epoch_data_lookups", 1)
-				ex := map[string]any{"query": "GetEpochDataRaw", "epoch": e, "header": fmt.Sprintf("b%d", x)}
-				if exceeded {
-					c.Violation("nontermination", fmt.Sprintf("after finalisation GetEpochDataRaw(%d, b%d): %d iterations", e, x, steps), wit(ex))
-					return
+				pruned := prunedIn(true, e)
+				reps := 2
+				if pruned > 0 {
+					reps = vC26Repeats
 				}
-				if gerr == nil {
+				for rep := 0; rep < reps; rep++ {
+					verifFindAncestorSteps.Store(0)
+					verifFindAncestorBudget.Store(vC26StepBudget)
+					var gd *types.EpochDataRaw
+					var gerr error
+					hd := *b.header
+					exceeded, steps := vRecoverBudget(func() { gd, gerr = w.es.GetEpochDataRaw(e, &hd) })
+					verifFindAncestorBudget.Store(0)
+					c.Eval(1)
+					c.Count("after_finalisation_epoch_data_lookups", 1)
+					if pruned >= 2 {
+						c.Count("lookups_with_2plus_abandoned_announcers_in_memory", 1)
+					}
+					ex := map[string]any{"query": "GetEpochDataRaw", "epoch": e, "header": fmt.Sprintf("b%d", x), "repetition": rep,
+						"abandoned_announcers_in_memory": pruned}
+					if exceeded {
+						c.Violation("nontermination", fmt.Sprintf("after finalisation GetEpochDataRaw(%d, b%d): %d iterations", e, x, steps), wit(ex))
+						return
+					}
+					if gerr != nil {
+						if len(S) > 0 {
+							ex["err"] = gerr.Error()
+							ex["expected_announcers"] = S
+							c.Violation("own_fork_data_not_found", fmt.Sprintf("after finalisation GetEpochDataRaw(%d, b%d) failed (%v) although b%v on its ancestry announced the data (%d abandoned announcers still in memory, repetition %d)",
+								e, x, gerr, S, pruned, rep), wit(ex))
+							return
+						}
+						continue
+					}
 					ok := false
 					for _, a := range S {
 						if reflect.DeepEqual(gd, w.tree.blocks[a].epochData.ToEpochDataRaw()) {
@@ -518,62 +574,115 @@ func runC26Finalised(c *vcommon.Case, spec *c26Spec, picks []int) {
 						return
 					}
 					c.Count("after_finalisation_epoch_data_correct", 1)
-					if len(S) > 0 && w.status(S[0], head) == "finalised" {
+					if w.status(S[0], head) == "finalised" {
 						c.Count("after_finalisation_data_of_finalised_announcer", 1)
 					}
-				} else if len(S) > 0 {
-					c.Count("after_finalisation_own_data_unavailable", 1)
-					if e >= w.epochOf(x) {
-						c.Count("after_finalisation_own_data_unavailable_for_current_or_next_epoch", 1)
+					if pruned > 0 {
+						c.Count("after_finalisation_epoch_data_correct_despite_abandoned_announcers", 1)
 					}
 				}
 
-				// config
+				// ---------------- config ----------------
 				var want []int
+				cpruned := 0
 				for t := e; t >= 1; t-- {
+					if n := prunedIn(false, t); n > cpruned {
+						cpruned = n
+					}
 					if St := w.announcers(x, t, false); len(St) > 0 {
 						want = St
 						break
 					}
 				}
-				verifFindAncestorSteps.Store(0)
-				verifFindAncestorBudget.Store(vC26StepBudget)
-				var gc *types.ConfigData
-				hd2 := *b.header
-				exceeded, steps = vRecoverBudget(func() { gc, gerr = w.es.GetConfigData(e, &hd2) })
-				verifFindAncestorBudget.Store(0)
-				c.Eval(1)
-				c.Count("after_finalisation_config_lookups", 1)
-				ex = map[string]any{"query": "GetConfigData", "epoch": e, "header": fmt.Sprintf("b%d", x)}
-				if exceeded {
-					c.Violation("nontermination", fmt.Sprintf("after finalisation GetConfigData(%d, b%d): %d iterations", e, x, steps), wit(ex))
-					return
+				reps = 2
+				if cpruned > 0 {
+					reps = vC26Repeats
 				}
-				if gerr != nil {
-					c.Count("after_finalisation_config_lookup_errors", 1)
-					continue
-				}
-				ok := false
-				if len(want) == 0 {
-					ok = gc != nil && gc.C1 == w.gen.C1 && gc.C2 == w.gen.C2 && gc.SecondarySlots == w.gen.SecondarySlots
-				}
-				for _, a := range want {
-					if reflect.DeepEqual(gc, w.tree.blocks[a].configData.ToConfigData()) {
-						ok = true
+				for rep := 0; rep < reps; rep++ {
+					verifFindAncestorSteps.Store(0)
+					verifFindAncestorBudget.Store(vC26StepBudget)
+					var gc *types.ConfigData
+					var gerr error
+					hd2 := *b.header
+					exceeded, steps := vRecoverBudget(func() { gc, gerr = w.es.GetConfigData(e, &hd2) })
+					verifFindAncestorBudget.Store(0)
+					c.Eval(1)
+					c.Count("after_finalisation_config_lookups", 1)
+					if cpruned >= 2 {
+						c.Count("lookups_with_2plus_abandoned_announcers_in_memory", 1)
 					}
+					ex := map[string]any{"query": "GetConfigData", "epoch": e, "header": fmt.Sprintf("b%d", x), "repetition": rep,
+						"abandoned_announcers_in_memory": cpruned}
+					if exceeded {
+						c.Violation("nontermination", fmt.Sprintf("after finalisation GetConfigData(%d, b%d): %d iterations", e, x, steps), wit(ex))
+						return
+					}
+					if gerr != nil {
+						ex["err"] = gerr.Error()
+						ex["expected_announcers"] = want
+						c.Violation("config_lookup_failed", fmt.Sprintf("after finalisation GetConfigData(%d, b%d) failed (%v); expected the config of %v (empty = genesis); %d abandoned announcers still in memory, repetition %d",
+							e, x, gerr, want, cpruned, rep), wit(ex))
+						return
+					}
+					ok := false
+					if len(want) == 0 {
+						ok = gc != nil && gc.C1 == w.gen.C1 && gc.C2 == w.gen.C2 && gc.SecondarySlots == w.gen.SecondarySlots
+					}
+					for _, a := range want {
+						if reflect.DeepEqual(gc, w.tree.blocks[a].configData.ToConfigData()) {
+							ok = true
+						}
+					}
+					if !ok {
+						ex["returned_announced_by"] = w.whoAnnouncedCD(gc)
+						ex["expected_announcers"] = want
+						c.Violation("foreign_fork_config", fmt.Sprintf("after finalisation GetConfigData(%d, b%d) returned the config of %v, expected %v (empty = genesis)",
+							e, x, ex["returned_announced_by"], want), wit(ex))
+						return
+					}
+					c.Count("after_finalisation_config_correct", 1)
 				}
-				if !ok {
-					ex["returned_announced_by"] = w.whoAnnouncedCD(gc)
-					ex["expected_announcers"] = want
-					c.Violation("foreign_fork_config", fmt.Sprintf("after finalisation GetConfigData(%d, b%d) returned the config of %v, expected %v (empty = genesis)",
-						e, x, ex["returned_announced_by"], want), wit(ex))
-					return
-				}
-				c.Count("after_finalisation_config_correct", 1)
 			}
 		}
 	}
-	c.Distinct("fin|" + w.tree.shape() + fmt.Sprint(picks))
+	c.Distinct("fin|" + w.tree.shape() + fmt.Sprint(picks, spec.Finalise))
+}
+
+// genC26FanSpec: a trunk in epoch 0 and 4-8 competing forks that each open epoch 1 and epoch 2 (so each
+// announces the data of epochs 2 and 3, often config data too); one fork is finalised step by step.
+func genC26FanSpec(c *vcommon.Case) *c26Spec {
+	r := c.R
+	L := uint64(r.Range(2, 3))
+	spec := &c26Spec{L: L}
+	S := uint64(r.Range(50, 5000))
+	add := func(parent int, slot uint64, ed, cd bool) int {
+		spec.Blocks = append(spec.Blocks, c26BlockSpec{Parent: parent, Slot: slot, ED: ed, CD: cd, Primary: r.Chance(3, 4)})
+		return len(spec.Blocks) - 1
+	}
+	tip := add(-1, S, true, r.Chance(1, 2)) // #1: first block of epoch 0
+	if r.Bool() {
+		tip = add(tip, S+1, false, false) // still epoch 0
+	}
+	k := r.Range(4, 8)
+	survivor := r.Intn(k)
+	var fin []int
+	for i := 0; i < k; i++ {
+		off := uint64(i) % L
+		f1 := add(tip, S+L+off, true, r.Chance(3, 5))  // first block of epoch 1 on this fork
+		f2 := add(f1, S+2*L+off, true, r.Chance(2, 5)) // first block of epoch 2
+		f3 := -1
+		if off+1 < L && r.Chance(2, 3) {
+			f3 = add(f2, S+2*L+off+1, false, false) // second block of epoch 2
+		}
+		if i == survivor {
+			fin = append(fin, f1)
+			if r.Chance(1, 3) && f3 >= 0 {
+				fin = append(fin, f2)
+			}
+		}
+	}
+	spec.Finalise = fin
+	return spec
 }
 
 // status of tree block x relative to the finalised head (model).
@@ -694,6 +803,23 @@ func c26FixedCorpus() []*c26Spec {
 	}
 }
 
+func c26FinalisedCorpus() []*c26Spec {
+	// 0: b1 (epoch 0) - b2 (first of epoch 1) - b3 (epoch 1); finalising b2 as the FIRST finalisation persists epoch 2
+	// and used to drop epoch 1's announcement without persisting it: lookup (1, b3) failed.
+	c0 := &c26Spec{L: 2, Blocks: []c26BlockSpec{{Parent: -1, Slot: 100, ED: true, Primary: true}, {Parent: 0, Slot: 102, ED: true, CD: true, Primary: true},
+		{Parent: 1, Slot: 103, Primary: true}}, Finalise: []int{1}}
+	// 1: six competing forks from the trunk block, each opening epoch 1 and epoch 2 with epoch data + config data;
+	// fork 2 is finalised: the five other forks' announcers stay in the in-memory maps without headers.
+	c1 := &c26Spec{L: 2, Blocks: []c26BlockSpec{{Parent: -1, Slot: 200, ED: true, CD: true, Primary: true}}}
+	for i := 0; i < 6; i++ {
+		off := uint64(i % 2)
+		c1.Blocks = append(c1.Blocks, c26BlockSpec{Parent: 0, Slot: 202 + off, ED: true, CD: true, Primary: true})
+		c1.Blocks = append(c1.Blocks, c26BlockSpec{Parent: len(c1.Blocks) - 1, Slot: 204 + off, ED: true, CD: i%2 == 0, Primary: true})
+	}
+	c1.Finalise = []int{5}
+	return []*c26Spec{c0, c1}
+}
+
 func TestVerifC26(t *testing.T) {
 	r := vcommon.Start(t, "C26")
 	defer r.Finish()
@@ -708,6 +834,8 @@ func TestVerifC26(t *testing.T) {
 	r.Floor("after_finalisation_epoch_data_correct", 200)
 	r.Floor("after_finalisation_data_of_finalised_announcer", 100)
 	r.Floor("after_finalisation_config_correct", 500)
+	r.Floor("lookups_with_2plus_abandoned_announcers_in_memory", 2000)
+	r.Floor("after_finalisation_epoch_data_correct_despite_abandoned_announcers", 500)
 
 	corpus := c26FixedCorpus()
 	// ordinary lookups first: a real hang (uninstrumented build) kills the whole child, so the
@@ -717,7 +845,13 @@ func TestVerifC26(t *testing.T) {
 	r.Fixed("corpus_miss", len(corpus), func(c *vcommon.Case) { runC26(c, corpus[c.Idx], 1) })
 	r.Cases("tree_miss", r.Scale(300), func(c *vcommon.Case) { runC26(c, genC26Spec(c, false), 1) })
 	// lookups after finalisation (mixes hits and misses): last
+	finCorpus := c26FinalisedCorpus()
+	r.Fixed("corpus_finalised", len(finCorpus), func(c *vcommon.Case) { runC26Finalised(c, finCorpus[c.Idx], nil) })
 	r.Cases("tree_finalised", r.Scale(200), func(c *vcommon.Case) {
+		if c.Idx%2 == 1 {
+			runC26Finalised(c, genC26FanSpec(c), nil)
+			return
+		}
 		spec := genC26Spec(c, true)
 		picks := []int{c.R.Intn(1000)}
 		if c.R.Bool() {
